@@ -91,7 +91,7 @@ Proof.
   assert (forall s, plain (VStr s) = true -> nospace s) as PS.
   { intros s H. unfold plain in H. apply negb_true_iff in H. apply orb_false_iff in H. destruct H as [H _].
     apply orb_false_iff in H. tauto. }
-  destruct d as [| | | |d'|?|?|?| | |]; try discriminate; destruct v; try discriminate; simpl in *;
+  destruct d as [| | | |d'|?|?|?| | | | ]; try discriminate; destruct v; try discriminate; simpl in *;
     try apply dec_nospace; try (apply float_ok_nospace; assumption); try (apply PS; assumption).
   all: destruct d'; try discriminate; simpl in *; try reflexivity; try discriminate;
     try apply dec_nospace; try (apply float_ok_nospace; assumption); try (apply PS; assumption).
@@ -103,7 +103,7 @@ Proof.
   intros Hd Hv Hw Pv Pw H.
   assert (forall s, plain (VStr s) = true -> s <> "None") as PN.
   { intros s Hs ->. vm_compute in Hs. discriminate. }
-  destruct d as [| | | |d'|?|?|?| | |]; try discriminate.
+  destruct d as [| | | |d'|?|?|?| | | | ]; try discriminate.
   - destruct v, w; try discriminate. simpl in H. f_equal. apply dec_inj. assumption.
   - destruct v, w; try discriminate. simpl in H. congruence.
   - destruct v, w; try discriminate. simpl in H. congruence.
@@ -189,6 +189,7 @@ Proof.
   - rewrite dec_eqb_eq. split; congruence.
   - rewrite andb_true_iff, !Z.eqb_eq. split; [intros [-> ->]; reflexivity|intros E; inversion E; auto].
   - rewrite andb_true_iff, !Z.eqb_eq. split; [intros [-> ->]; reflexivity|intros E; inversion E; auto].
+  - rewrite N.eqb_eq. split; congruence.
 Qed.
 
 Lemma pvals_eqb_eq : forall xs ys, pvals_eqb xs ys = true <-> xs = ys.
@@ -240,7 +241,7 @@ Qed.
 (* ---------- validation yields level-2 values, canonicalisation yields cache-key values ---------- *)
 Lemma validate_valid : forall d v x, validate d v = Ok x -> valid d x = true.
 Proof.
-  fix IH 1. intros d v x H. destruct d as [| | | |d'|n| |ds| | |].
+  fix IH 1. intros d v x H. destruct d as [| | | |d'|n| |ds| | | | ].
   - destruct v; simpl in H; try discriminate; inversion H; reflexivity.
   - destruct v; simpl in H; try discriminate.
     + destruct (_ && _) eqn:E; [|discriminate]. inversion H. simpl. apply andb_true_iff in E. apply float_ok_held. tauto.
@@ -277,6 +278,7 @@ Proof.
   - destruct v; simpl in H; try discriminate.
     destruct (Prefixed.is_prefix q) eqn:E; [|discriminate]. inversion H. simpl. assumption.
   - simpl in H. destruct (to_number false v) as [[y|]|]; simpl in H; try discriminate. inversion H. reflexivity.
+  - destruct v; simpl in H; try discriminate; inversion H; reflexivity.
 Qed.
 
 Definition simple (v : pval) : bool :=
@@ -287,7 +289,7 @@ Proof. destruct v; try discriminate; reflexivity. Qed.
 
 Lemma canon_typed : forall d x y, valid d x = true -> canon x = Ok y -> typed d y = true.
 Proof.
-  fix IH 1. intros d x y V C. destruct d as [| | | |d'|n| |ds| | |].
+  fix IH 1. intros d x y V C. destruct d as [| | | |d'|n| |ds| | | | ].
   1,3-4,6-7: destruct x; try discriminate; simpl in C; inversion C; subst; exact V.
   1: { destruct x; try discriminate. simpl in C. inversion C. simpl. apply float_held_fzero. exact V. }
   - assert (forall z, typed d' z = true -> typed (DOpt d') z = true) as L by (intros z Hz; destruct z; simpl; auto).
@@ -308,12 +310,13 @@ Proof.
     destruct (canon_pref d q) as [ce|] eqn:E; simpl in C; [|discriminate]. inversion C. simpl. eapply canon_pref_ok. eassumption.
   - destruct x; try discriminate; simpl in C.
     destruct (canon_dec d) as [ce|] eqn:E; simpl in C; [|discriminate]. inversion C. simpl. eapply canon_dec_ok. eassumption.
+  - destruct x; try discriminate; simpl in C; inversion C; subst; exact V.
 Qed.
 
 (* canonicalisation never fails on a validated value *)
 Lemma canon_total : forall d x, valid d x = true -> exists y, canon x = Ok y.
 Proof.
-  fix IH 1. intros d x V. destruct d as [| | | |d'|n| |ds| | |].
+  fix IH 1. intros d x V. destruct d as [| | | |d'|n| |ds| | | | ].
   1-4,6-7: destruct x; try discriminate; eexists; reflexivity.
   - destruct x; simpl in V; try (eexists; reflexivity); eapply IH; eassumption.
   - destruct x; try discriminate. simpl in V.
@@ -329,6 +332,7 @@ Proof.
     + destruct (canon_pref_total d q) as [c [e E]]. eexists. simpl. rewrite E. reflexivity.
   - destruct x; try discriminate. destruct (canon_pref_total d q) as [c [e E]]. eexists. simpl. rewrite E. reflexivity.
   - destruct x; try discriminate. destruct (canon_dec_total d) as [c [e E]]. eexists. simpl. rewrite E. reflexivity.
+  - destruct x; try discriminate; eexists; reflexivity.
 Qed.
 
 Lemma norm_typed d v x : ParamName.norm d v = Ok x -> typed d x = true.
@@ -737,7 +741,7 @@ Fixpoint lvl3 (v : pval) : bool :=
 
 Lemma typed_lvl3 : forall d v, typed d v = true -> lvl3 v = true.
 Proof.
-  fix IH 1. intros d v H. destruct d as [| | | |d'|n| |ds| | |]; try (destruct v; try discriminate; reflexivity).
+  fix IH 1. intros d v H. destruct d as [| | | |d'|n| |ds| | | | ]; try (destruct v; try discriminate; reflexivity).
   - destruct v; simpl in H; try reflexivity; try (eapply IH; eassumption).
   - destruct v; try discriminate. simpl in H. simpl. revert vs H.
     induction ds as [|d0 ds IHl]; intros [|v0 vs] H; try discriminate; [reflexivity|].
